@@ -126,6 +126,12 @@ u8_t runcrypt::verify(size_t fsize)
   header.checkType();
   if (header.getctype() > 4 || header.gethtype() > 2)
     return 3;
+  // the body must be a positive number of whole 16-byte blocks: anything else was not written by
+  // execute_encrypt and would leave the pipeline with a final buffer that holds no block
+  fseek(fin, 0, SEEK_END);
+  long body_len = ftell(fin) - (long)FILE_TEXT_MARK(threads_num);
+  if (body_len < 16 || (body_len & 0xf) != 0)
+    return 1;
   resultprint->printctype(header.getctype());
   resultprint->printhtype(header.gethtype());
   u8_t *hash = header.getHmac(64);
